@@ -35,13 +35,11 @@ import itertools
 import json
 import os
 import random
-import subprocess
 import sys
 import time
 
 sys.path.insert(0, os.path.join(os.path.dirname(os.path.abspath(__file__)), "..", "lib"))
 import vlib
-import wildrun
 import wsched
 import symfam
 from progs import func_obj, graph_program
@@ -456,7 +454,7 @@ def main():
     if chk.args.replay:
         replay(chk, chk.args.replay)
     t0 = time.time()
-    cap = 900 if chk.thorough else 40           # wall cap of the P enumeration
+    cap = 900 if chk.thorough else 60           # wall cap of the P enumeration
     cov = {}
     with vlib.scratch("c03") as base:
         err = symfam.selftest_ar(os.path.join(base, "arself"))   # (also proves `ar` works here)
@@ -521,7 +519,7 @@ def main():
         n_eval = n_excl = ext_kills = 0
         loaded_sets, nontrivial, capped = set(), set(), None
         tw = time.time()
-        work = batches([(c, link_args(*c)) for c in fam], 128)
+        work = batches([(c, link_args(*c)) for c in fam], 128 if chk.thorough else 32)
         for res, kills in vlib.pmap_unordered(wild_task, [(d, base, b) for b in work]):
             ext_kills += kills
             for c, rc, got, msg in res:
